@@ -7,13 +7,30 @@ namespace Tongo.PoolSM
 connections) by any sequence of enabled actions -/
 inductive Reachable (v : Variant) : State → Prop where
   | init (heads : List Nat) (best : Option Nat) (targets : List Nat) (pubs : List (Nat × Nat))
-      (hp : ∀ p ∈ pubs, p.1 < heads.length) : Reachable v (mkInit heads best targets pubs)
+      (strategy : PoolSelect.Strategy) (rtts : List Int)
+      (hp : ∀ p ∈ pubs, p.1 < heads.length ∧ p.2 < 2 ^ 32) (hh : ∀ h ∈ heads, h < 2 ^ 32) :
+      Reachable v (mkInit heads best targets pubs strategy rtts)
   | step {s s' : State} {a : Action} : Reachable v s → step v s a = some s' → Reachable v s'
 
 /-- subscribed and not yet unsubscribed -/
 def WPc.registered : WPc → Bool
   | .sel => true
   | .leave _ => true
+  | _ => false
+
+/-- Run holds the pool's write lock (inside updateBest) -/
+def _root_.Tongo.PoolSM.RunPc.lockW : RunPc → Bool
+  | .ubRead _ _ => true
+  | .ubSel _ _ _ => true
+  | .nLoop sw _ _ => sw
+  | .nPut sw _ _ _ _ => sw
+  | _ => false
+
+/-- Run holds the pool's read lock (inside notifySubscribers) -/
+def _root_.Tongo.PoolSM.RunPc.lockR : RunPc → Bool
+  | .nCheck _ _ => true
+  | .nLoop sw _ _ => !sw
+  | .nPut sw _ _ _ _ => !sw
   | _ => false
 
 macro "step_cases" hs:ident : tactic =>
@@ -27,11 +44,11 @@ attribute [local grind →] List.mem_of_mem_erase
 structure InvA (s : State) : Prop where
   l1 : ∀ (i : Nat) (w : Waiter), s.waiters[i]? = some w → (w.pc = .subRead ↔ s.rw = .wrW i)
   l2 : ∀ i, s.rw = .wrW i → ∃ w, s.waiters[i]? = some w
-  l3 : s.rw = .wrRun ↔ ∃ i, s.run = .ubRead i
-  l4 : s.rw = .rd ↔ ((∃ h todo, s.run = .nLoop h todo) ∨ (∃ h h' w todo, s.run = .nPut h h' w todo))
+  l3 : s.rw = .wrRun ↔ s.run.lockW = true
+  l4 : s.rw = .rd ↔ s.run.lockR = true
   vWl : ∀ e ∈ s.waitList, ∃ x, s.waiters[e.2]? = some x ∧ x.wid = e.1 ∧ x.pc.registered = true
-  vLoop : ∀ h todo, s.run = .nLoop h todo → ∀ w ∈ todo, ∃ x, s.waiters[w]? = some x ∧ x.pc.registered = true
-  vPut : ∀ h h' w todo, s.run = .nPut h h' w todo →
+  vLoop : ∀ sw h todo, s.run = .nLoop sw h todo → ∀ w ∈ todo, ∃ x, s.waiters[w]? = some x ∧ x.pc.registered = true
+  vPut : ∀ sw h h' w todo, s.run = .nPut sw h h' w todo →
     (∃ x, s.waiters[w]? = some x ∧ x.pc.registered = true) ∧
     ∀ w' ∈ todo, ∃ x, s.waiters[w']? = some x ∧ x.pc.registered = true
   fresh : ∀ (i : Nat) (w : Waiter), s.waiters[i]? = some w → (w.pc = .start ∨ w.pc = .subRead) →
@@ -41,77 +58,77 @@ structure InvA (s : State) : Prop where
 theorem invA_l1 {v s a s'} (h : InvA s) (hs : step v s a = some s') :
     ∀ (i : Nat) (w : Waiter), s'.waiters[i]? = some w → (w.pc = .subRead ↔ s'.rw = .wrW i) := by
   obtain ⟨l1, l2, l3, l4, vWl, vLoop, vPut, fresh, cap1⟩ := h
-  cases a <;> step_cases hs <;> grind [State.setW, State.setS]
+  cases a <;> step_cases hs <;> grind [State.setW, State.setS, RunPc.lockW, RunPc.lockR]
 
 theorem invA_l2 {v s a s'} (h : InvA s) (hs : step v s a = some s') :
     ∀ i, s'.rw = .wrW i → ∃ w, s'.waiters[i]? = some w := by
   obtain ⟨l1, l2, l3, l4, vWl, vLoop, vPut, fresh, cap1⟩ := h
-  cases a <;> step_cases hs <;> grind [State.setW, State.setS]
+  cases a <;> step_cases hs <;> grind [State.setW, State.setS, RunPc.lockW, RunPc.lockR]
 
 theorem invA_l3 {v s a s'} (h : InvA s) (hs : step v s a = some s') :
-    s'.rw = .wrRun ↔ ∃ i, s'.run = .ubRead i := by
+    s'.rw = .wrRun ↔ s'.run.lockW = true := by
   obtain ⟨l1, l2, l3, l4, vWl, vLoop, vPut, fresh, cap1⟩ := h
-  cases a <;> step_cases hs <;> grind [State.setW, State.setS]
+  cases a <;> step_cases hs <;> grind [State.setW, State.setS, RunPc.lockW, RunPc.lockR]
 
 theorem invA_l4 {v s a s'} (h : InvA s) (hs : step v s a = some s') :
-    s'.rw = .rd ↔ ((∃ h todo, s'.run = .nLoop h todo) ∨ (∃ h h' w todo, s'.run = .nPut h h' w todo)) := by
+    s'.rw = .rd ↔ s'.run.lockR = true := by
   obtain ⟨l1, l2, l3, l4, vWl, vLoop, vPut, fresh, cap1⟩ := h
-  cases a <;> step_cases hs <;> grind [State.setW, State.setS]
+  cases a <;> step_cases hs <;> grind [State.setW, State.setS, RunPc.lockW, RunPc.lockR]
 
 theorem invA_vWl {v s a s'} (h : InvA s) (hs : step v s a = some s') :
     ∀ e ∈ s'.waitList, ∃ x, s'.waiters[e.2]? = some x ∧ x.wid = e.1 ∧ x.pc.registered = true := by
   obtain ⟨l1, l2, l3, l4, vWl, vLoop, vPut, fresh, cap1⟩ := h
-  cases a <;> step_cases hs <;> grind [State.setW, State.setS, WPc.registered]
+  cases a <;> step_cases hs <;> grind [State.setW, State.setS, WPc.registered, RunPc.lockW, RunPc.lockR]
 
 theorem invA_vLoop {v s a s'} (h : InvA s) (hs : step v s a = some s') :
-    ∀ h todo, s'.run = .nLoop h todo → ∀ w ∈ todo, ∃ x, s'.waiters[w]? = some x ∧ x.pc.registered = true := by
+    ∀ sw h todo, s'.run = .nLoop sw h todo → ∀ w ∈ todo, ∃ x, s'.waiters[w]? = some x ∧ x.pc.registered = true := by
   obtain ⟨l1, l2, l3, l4, vWl, vLoop, vPut, fresh, cap1⟩ := h
-  cases a <;> step_cases hs <;> grind [State.setW, State.setS, WPc.registered]
+  cases a <;> step_cases hs <;> grind [State.setW, State.setS, WPc.registered, RunPc.lockW, RunPc.lockR]
 
 theorem invA_vPut {v s a s'} (h : InvA s) (hs : step v s a = some s') :
-    ∀ h h' w todo, s'.run = .nPut h h' w todo →
+    ∀ sw h h' w todo, s'.run = .nPut sw h h' w todo →
     (∃ x, s'.waiters[w]? = some x ∧ x.pc.registered = true) ∧
     ∀ w' ∈ todo, ∃ x, s'.waiters[w']? = some x ∧ x.pc.registered = true := by
   obtain ⟨l1, l2, l3, l4, vWl, vLoop, vPut, fresh, cap1⟩ := h
-  cases a <;> step_cases hs <;> grind [State.setW, State.setS, WPc.registered]
+  cases a <;> step_cases hs <;> grind [State.setW, State.setS, WPc.registered, RunPc.lockW, RunPc.lockR]
 
 theorem invA_fresh {v s a s'} (h : InvA s) (hs : step v s a = some s') :
     ∀ (i : Nat) (w : Waiter), s'.waiters[i]? = some w → (w.pc = .start ∨ w.pc = .subRead) →
     w.offered = none ∧ w.buf = [] ∧ w.received = [] ∧ w.fired = false := by
   obtain ⟨l1, l2, l3, l4, vWl, vLoop, vPut, fresh, cap1⟩ := h
-  cases a <;> step_cases hs <;> grind [State.setW, State.setS, WPc.registered]
+  cases a <;> step_cases hs <;> grind [State.setW, State.setS, WPc.registered, RunPc.lockW, RunPc.lockR]
 
 theorem invA_cap1 {v s a s'} (h : InvA s) (hs : step v s a = some s') :
     ∀ (i : Nat) (w : Waiter), s'.waiters[i]? = some w → w.buf.length ≤ 1 := by
   obtain ⟨l1, l2, l3, l4, vWl, vLoop, vPut, fresh, cap1⟩ := h
-  cases a <;> step_cases hs <;> grind [State.setW, State.setS]
+  cases a <;> step_cases hs <;> grind [State.setW, State.setS, RunPc.lockW, RunPc.lockR]
 
 theorem invA_step {v s a s'} (h : InvA s) (hs : step v s a = some s') : InvA s' :=
   ⟨invA_l1 h hs, invA_l2 h hs, invA_l3 h hs, invA_l4 h hs, invA_vWl h hs, invA_vLoop h hs, invA_vPut h hs,
    invA_fresh h hs, invA_cap1 h hs⟩
 
-theorem mkInit_waiter {heads best targets pubs} {i : Nat} {w : Waiter}
-    (h : (mkInit heads best targets pubs).waiters[i]? = some w) :
+theorem mkInit_waiter {heads best targets pubs st rtts} {i : Nat} {w : Waiter}
+    (h : (mkInit heads best targets pubs st rtts).waiters[i]? = some w) :
     w.pc = .start ∧ w.buf = [] ∧ w.received = [] ∧ w.fired = false ∧ w.offered = none ∧ w.wid = 0 := by
   simp only [mkInit, List.getElem?_map, Option.map_eq_some_iff] at h
   obtain ⟨t, _, rfl⟩ := h
   simp
 
-theorem invA_init (heads best targets pubs) : InvA (mkInit heads best targets pubs) := by
+theorem invA_init (heads best targets pubs st rtts) : InvA (mkInit heads best targets pubs st rtts) := by
   constructor
   · intro i w h; have := mkInit_waiter h; simp [this.1, mkInit]
   · intro i h; simp [mkInit] at h
-  · simp [mkInit]
-  · simp [mkInit]
+  · simp [mkInit, RunPc.lockW]
+  · simp [mkInit, RunPc.lockR]
   · intro e he; simp [mkInit] at he
-  · intro h todo hr; simp [mkInit] at hr
-  · intro h h' w todo hr; simp [mkInit] at hr
+  · intro sw h todo hr; simp [mkInit] at hr
+  · intro sw h h' w todo hr; simp [mkInit] at hr
   · intro i w h _; have := mkInit_waiter h; simp [this]
   · intro i w h; have := mkInit_waiter h; simp [this]
 
 theorem reachable_invA {v s} (h : Reachable v s) : InvA s := by
   induction h with
-  | init heads best targets pubs hp => exact invA_init ..
+  | init heads best targets pubs st rtts hp hh => exact invA_init ..
   | step _ hs ih => exact invA_step ih hs
 
 end Tongo.PoolSM
